@@ -5,6 +5,7 @@ import (
 	"io/ioutil"
 	"log"
 	"strconv"
+	"strings"
 	"sync"
 	"sync/atomic"
 	"time"
@@ -36,6 +37,9 @@ func (p *probeImpl) Hello(a string) (string, error) {
 	atomic.AddInt64(&p.calls, 1)
 	if p.log != nil {
 		p.log(a)
+	}
+	if strings.HasPrefix(a, "sleep") {
+		time.Sleep(700 * time.Millisecond)
 	}
 	return "echo:" + a, nil
 }
@@ -159,6 +163,9 @@ func childSessionStress(a []string) string {
 			if r.Chance(10) {
 				name = names[0]
 			}
+			if len(a) > 3 && a[3] == "same" { // every goroutine asks for the same service
+				name = names[1]
+			}
 			wg.Add(1)
 			go func(g int, name string) {
 				defer wg.Done()
@@ -227,8 +234,78 @@ func childSessionStress(a []string) string {
 	return "ok"
 }
 
+// session.flood <goroutines>
+// One object is busy with a slow call of another client; meanwhile <goroutines> goroutines
+// request a proxy of that service through one shared session.  Every request must succeed.
+func childSessionFlood(a []string) string {
+	log.SetOutput(ioutil.Discard)
+	n, _ := strconv.Atoi(a[0])
+	addrA := util.NewUnixAddr()
+	dsrv, err := dir.NewServer(addrA, nil)
+	if err != nil {
+		return "setup-error:" + err.Error()
+	}
+	defer dsrv.Terminate()
+	if _, err := dsrv.NewService("Probe", pong.PingPongObject(&probeImpl{})); err != nil {
+		return "setup-error:" + err.Error()
+	}
+	other, err := session.NewSession(addrA)
+	if err != nil {
+		return "setup-error:" + err.Error()
+	}
+	defer other.Terminate()
+	sess, err := session.NewSession(addrA)
+	if err != nil {
+		return "setup-error:" + err.Error()
+	}
+	defer sess.Terminate()
+	time.Sleep(20 * time.Millisecond)
+	op, err := other.Proxy("Probe", 1)
+	if err != nil {
+		return "setup-error:" + err.Error()
+	}
+	busy := make(chan error, 1)
+	go func() { _, err := pong.MakePingPong(other, op).Hello("sleep"); busy <- err }()
+	time.Sleep(100 * time.Millisecond) // the object is now inside the slow method
+	var wg sync.WaitGroup
+	var dropped, otherErr int64
+	var firstErr atomic.Value
+	start := make(chan struct{})
+	for g := 0; g < n; g++ {
+		wg.Add(1)
+		go func() {
+			defer wg.Done()
+			<-start
+			if _, err := sess.Proxy("Probe", 1); err != nil {
+				if strings.Contains(err.Error(), "consumer blocked") {
+					atomic.AddInt64(&dropped, 1)
+				} else {
+					atomic.AddInt64(&otherErr, 1)
+					firstErr.Store(err.Error())
+				}
+			}
+		}()
+	}
+	close(start)
+	done := make(chan struct{})
+	go func() { wg.Wait(); close(done) }()
+	select {
+	case <-done:
+	case <-time.After(30 * time.Second):
+		return "fail:hang"
+	}
+	<-busy
+	if otherErr > 0 {
+		return "fail:" + firstErr.Load().(string)
+	}
+	if dropped > 0 {
+		return "fail:dropped"
+	}
+	return "ok"
+}
+
 func execSessionStress(a []string) string {
-	out := runChild("session.stress", a[0]+" "+a[1]+" "+a[2], 120*time.Second, 0)
+	out := runChild("session.stress", strings.Join(a, " "), 120*time.Second, 0)
 	if out.Result != "ok" {
 		lastFailDetail = out.Stderr
 	}
@@ -242,12 +319,31 @@ func execSessionStress(a []string) string {
 var lastFailDetail string
 
 func init() {
+	children["session.flood"] = childSessionFlood
+	executors["session.flood"] = func(a []string) string {
+		out := runChild("session.flood", strings.Join(a, " "), 60*time.Second, 0)
+		if out.Result == "crash" || out.Result == "crash-noresult" || out.Result == "timeout" {
+			lastFailDetail = out.Stderr
+		}
+		return out.Result
+	}
 	children["session.stress"] = childSessionStress
 	executors["session.stress"] = execSessionStress
 	runners["C19"] = runC19
 }
 
 func runC19(r *Rand, tier string, o *Out) {
+	// the bounded server queues: small floods are served, a flood larger than the buffering is not
+	for _, n := range []int{4, 8, 40} {
+		op := fmt.Sprintf("session.flood %d", n)
+		res := o.Do("P", op, true)
+		o.Count(fmt.Sprintf("flood:%d", n))
+		if res == "fail:dropped" {
+			o.Fail("shared session: requests dropped once more are in flight than the server buffers", op+" => "+res)
+		} else if res != "ok" {
+			o.Fail("shared session flood: "+res, op+" => "+res+" stderr: "+tail(lastFailDetail, 400))
+		}
+	}
 	cases := [][2]int{{2, 6}, {8, 6}, {32, 3}}
 	if tier == "thorough" {
 		cases = [][2]int{{2, 40}, {4, 30}, {8, 30}, {16, 20}, {32, 15}, {64, 6}}
